@@ -38,6 +38,8 @@ partial def loop (h : IO.FS.Stream) : IO Unit := do
       let reqs := (ja j "reqs").toList.map parseReq
       let ws := dispatch reqs
       IO.println ("final " ++ seqStr ((sortBy (·.1) ws).map fun (s, l) => s!"{s}:{l.foldl effect false}"))
+    | "inst" =>
+      IO.println s!"inst started={(instantiate (jb j "join") (jb j "restore") (jb j "has")).started}"
     | _ => IO.println "bad-op"
     loop h
 
